@@ -114,12 +114,21 @@ def theorem_domain(rep, model, modules):
                 else:
                     rep.bump('theorem_domain_variables_outside')
             elif d[0] == 'class':
-                # the class without template, base, operators and dunder methods, and with the constructors, methods,
+                # the class without template, templated base, operators and dunder methods, and with the constructors, methods,
                 # static methods, properties and nested enums the model accepts one by one
                 empty = ['class', [], d[2], d[3], [], [], [], [], [], [], [], []]
                 if not model.ask('printdecls', [empty]).startswith('ok '):
                     rep.bump('theorem_domain_classes_outside')
                     continue
+                # the base class stays when it is a plain (non-templated) name the model accepts
+                if d[4]:
+                    based = list(empty)
+                    based[4] = d[4]
+                    if model.ask('printdecls', [based]).startswith('ok '):
+                        empty = based
+                        rep.bump('theorem_domain_class_bases_inside')
+                    else:
+                        rep.bump('theorem_domain_class_bases_outside')
                 kept = list(empty)
                 for slot, what in ((5, 'constructors'), (6, 'methods'), (7, 'static_methods'), (9, 'properties'), (11, 'enums')):
                     for m in d[slot]:
